@@ -72,7 +72,7 @@ func (c03Checker) Meta() CheckerMeta {
 			"where the statement is silent (ban after only failed creations, duplicate ban, unknown name) either answer is accepted but binding: nil => banned from now on, error => unchanged",
 			"Render* are written with Must: a compile error surfaces as panic(*Error), accepted as 'compilation fails'",
 		},
-		QuickRuns: 2000, QuickRace: 0,
+		QuickRuns: 20000, QuickRace: 0,
 	}
 }
 
